@@ -1,7 +1,7 @@
 (* C03 — input status is truthful and confirmed inputs are final (queue level, then session level).
    Statements only. *)
 From GGRS Require Import Base Consts Queue QueueProofs QueueTheorems.
-From GGRS Require Import Sync P2P Session SessionProofs SessionSparse SessionProgress SessionSparse2 SessionTimeline SessionTimelineSparse.
+From GGRS Require Import Sync P2P Session SessionProofs SessionSparse SessionProgress SessionSparse2 SessionTimeline SessionTimelineSparse SessionSystem.
 Open Scope Z_scope.
 
 (* For every sequence of arrivals of a remote player's inputs, reads (non-decreasing between two
@@ -127,3 +127,40 @@ Example C03_session_demo :
       [[]; [(0, [(1, Confirmed); (0, Predicted)])]; []; [(1, [(1, Confirmed); (0, Predicted)])]; []; []; [];
        [(0, [(1, Confirmed); (7, Confirmed)]); (1, [(1, Confirmed); (7, Confirmed)]); (2, [(2, Confirmed); (7, Predicted)])]].
 Proof. eexists. eexists. split; vm_compute; reflexivity. Qed.
+
+(* RUN LEVEL AND ACROSS THE LINK (coq/SessionTimeline.v run_sends_g, coq/SessionSystem.v).
+   (a) After ANY run inside the space (rollback with either saving mode, or lockstep: [mode_ok]) EVERY AdvanceFrame
+   request the run ever issued ([all_adv_frames]: first simulations and re-simulations, each with the frame it
+   simulates) that hands out (v, Confirmed) for a player does so with the input the session holds for that frame
+   and player at the end of the run - a Confirmed input is never revised: what is held only grows. *)
+Theorem C03_confirmed_inputs_of_a_run :
+  forall (predict : Z -> Z), (forall x, predict (predict x) = predict x) -> predict 0 = 0 ->
+  forall (sparse : bool) (ops : list sop) (n w d : Z) (kinds : list pkind) (eps : list (list Z)) (nspec : nat) (p : p2p) (outs : list (pout * apires)),
+  mode_ok sparse w d -> 0 <= d -> 0 < n -> Z.of_nat (length kinds) = n -> players_only kinds ->
+  srun_in predict (session_start n w sparse d kinds eps nspec) ops = Ok (p, outs) ->
+  exists gs, QSg sparse w d p gs /\ Forall (confirmed_ok gs) (all_adv_frames [] outs).
+Proof.
+  intros predict Hi Hz sparse ops n w d kinds eps nspec p outs Hm Hd Hn Hl Hp H.
+  destruct (sends_and_receipts_any predict Hi Hz sparse ops n w d kinds eps nspec p outs Hm Hd Hn Hl Hp H)
+    as (g & gs & _ & HQS & _ & _ & _ & _ & _ & _ & _ & Hc).
+  exists gs. split; assumption.
+Qed.
+
+(* (b) "An input handed out as Confirmed is the real input of that player for that frame": two peers, A owns player
+   h, B sees h as a remote player; under the link's integrity contract (props/C01.v, C05.v) every input B EVER hands
+   out as Confirmed for h at frame f is the input A holds for (f, h): what h's owner registered for that frame (the
+   input submitted, shifted by A's input delay). *)
+Theorem C03_confirmed_is_the_owners_input :
+  forall (predict : Z -> Z), (forall x, predict (predict x) = predict x) -> predict 0 = 0 ->
+  forall (sparseA sparseB : bool) (opsA opsB : list sop) (n wA wB dA dB : Z) (kindsA kindsB : list pkind)
+         (epsA epsB : list (list Z)) (nspecA nspecB : nat) (pA pB : p2p) (outsA outsB : list (pout * apires)),
+  mode_ok sparseA wA dA -> 0 <= dA -> mode_ok sparseB wB dB -> 0 <= dB ->
+  0 < n -> Z.of_nat (length kindsA) = n -> Z.of_nat (length kindsB) = n -> players_only kindsA -> players_only kindsB ->
+  srun_in predict (session_start n wA sparseA dA kindsA epsA nspecA) opsA = Ok (pA, outsA) ->
+  srun_in predict (session_start n wB sparseB dB kindsB epsB nspecB) opsB = Ok (pB, outsB) ->
+  exists gsA, QSg sparseA wA dA pA gsA /\
+    forall h e, 0 <= h -> nth_error kindsA (Z.to_nat h) = Some KLocal -> nth_error kindsB (Z.to_nat h) = Some (KRemote e) ->
+      delivered_was_sent h outsA opsB ->
+      forall f ins v, In (f, ins) (all_adv_frames [] outsB) -> nth_error ins (Z.to_nat h) = Some (v, Confirmed) ->
+        exists histA lowA, nth_error gsA (Z.to_nat h) = Some (histA, lowA) /\ 0 <= f < hlen histA /\ v = hval histA f.
+Proof. exact two_sessions_confirmed_inputs. Qed.
